@@ -19,12 +19,14 @@ import (
 	"flag"
 	"fmt"
 	"go/ast"
+	"go/constant"
 	"go/parser"
 	"go/token"
 	"go/types"
 	"os"
 	"path/filepath"
 	"sort"
+	"strconv"
 	"strings"
 
 	"golang.org/x/tools/go/packages"
@@ -62,6 +64,10 @@ type report struct {
 	Audit             []auditHit `json:"audit_hits"`
 	// exported methods/functions declared in non-generated files of pkg/sbom
 	SbomInventory []string            `json:"sbom_inventory"`
+	// identifier-like string literals of the driver packages (a dictionary for format-option keys and values)
+	DriverStrings []string `json:"driver_strings"`
+	// constant strings that index a map with string keys in the driver packages (likely option keys)
+	DriverMapKeys []string `json:"driver_map_keys"`
 	Globals       map[string][]string `json:"package_level_vars"`
 }
 
@@ -178,6 +184,10 @@ func run(repo, out, simrt string) error {
 		if p.PkgPath == modPath+"/pkg/sbom" {
 			rep.SbomInventory = inventory(p)
 		}
+		if strings.HasPrefix(p.PkgPath, modPath+"/pkg/native/serializers") || strings.HasPrefix(p.PkgPath, modPath+"/pkg/native/unserializers") {
+			rep.DriverStrings = append(rep.DriverStrings, stringLiterals(p)...)
+			rep.DriverMapKeys = append(rep.DriverMapKeys, mapKeyConstants(p)...)
+		}
 	}
 
 	// the runtime: every .go file below simrt becomes a file of the virtual package tree pkg/verifsim
@@ -220,6 +230,80 @@ func writeJSON(path string, v any) error {
 		return err
 	}
 	return os.WriteFile(path, b, 0o644)
+}
+
+// mapKeyConstants lists constant strings used to index maps with string keys (m["key"], m[KeyConst]).
+func mapKeyConstants(p *packages.Package) []string {
+	seen := map[string]bool{}
+	var out []string
+	for _, f := range p.Syntax {
+		pos := p.Fset.Position(f.Pos())
+		if strings.HasSuffix(pos.Filename, "_test.go") || ast.IsGenerated(f) {
+			continue
+		}
+		ast.Inspect(f, func(n ast.Node) bool {
+			ix, ok := n.(*ast.IndexExpr)
+			if !ok || p.TypesInfo == nil {
+				return true
+			}
+			xt, ok := p.TypesInfo.Types[ix.X]
+			if !ok || xt.Type == nil {
+				return true
+			}
+			mt, ok := xt.Type.Underlying().(*types.Map)
+			if !ok {
+				return true
+			}
+			if b, ok := mt.Key().Underlying().(*types.Basic); !ok || b.Info()&types.IsString == 0 {
+				return true
+			}
+			if tv, ok := p.TypesInfo.Types[ix.Index]; ok && tv.Value != nil && tv.Value.Kind() == constant.String {
+				v := constant.StringVal(tv.Value)
+				if v != "" && len(v) <= 60 && !seen[v] {
+					seen[v] = true
+					out = append(out, v)
+				}
+			}
+			return true
+		})
+	}
+	sort.Strings(out)
+	return out
+}
+
+// stringLiterals lists the identifier-like string literals of a package's non-test, non-generated files.
+func stringLiterals(p *packages.Package) []string {
+	seen := map[string]bool{}
+	var out []string
+	for _, f := range p.Syntax {
+		pos := p.Fset.Position(f.Pos())
+		if strings.HasSuffix(pos.Filename, "_test.go") || ast.IsGenerated(f) {
+			continue
+		}
+		ast.Inspect(f, func(n ast.Node) bool {
+			if _, ok := n.(*ast.ImportSpec); ok {
+				return false
+			}
+			bl, ok := n.(*ast.BasicLit)
+			if !ok || bl.Kind != token.STRING {
+				return true
+			}
+			v, err := strconv.Unquote(bl.Value)
+			if err != nil || len(v) < 2 || len(v) > 40 || seen[v] {
+				return true
+			}
+			for _, c := range v {
+				if !(c >= 'a' && c <= 'z' || c >= 'A' && c <= 'Z' || c >= '0' && c <= '9' || c == '-' || c == '_' || c == '.' || c == ':') {
+					return true
+				}
+			}
+			seen[v] = true
+			out = append(out, v)
+			return true
+		})
+	}
+	sort.Strings(out)
+	return out
 }
 
 func inventory(p *packages.Package) []string {
